@@ -130,13 +130,22 @@ impl SliceIds for Vec<Tagged> {
 pub trait Comb {
     /// poll once; returns the outcome text (`P`, `R ..`, `S ..`, `N`)
     fn poll(&mut self, cx: &mut Context<'_>) -> String;
+    /// what the combinator's `Debug` impl shows, where that is its `PollState` table (array / Vec
+    /// `join` and `try_join`): internal state the crate exposes through its public API
+    fn dbg(&self) -> Option<String> {
+        None
+    }
 }
 
 pub struct FutComb<F: Future, W> {
     pub fut: Pin<Box<F>>,
     pub wrap: fn(F::Output) -> W,
+    pub dbg: Option<fn(&F) -> String>,
 }
 impl<F: Future, W: OutText> Comb for FutComb<F, W> {
+    fn dbg(&self) -> Option<String> {
+        self.dbg.map(|d| d(&self.fut))
+    }
     fn poll(&mut self, cx: &mut Context<'_>) -> String {
         match self.fut.as_mut().poll(cx) {
             Poll::Pending => "P".into(),
@@ -181,6 +190,18 @@ where
     Box::new(FutComb {
         fut: Box::pin(f),
         wrap,
+        dbg: None,
+    })
+}
+/// the same for a combinator whose `Debug` output is its poll-state table
+fn fut_comb_dbg<F: Future + std::fmt::Debug + 'static, W: OutText + 'static>(f: F, wrap: fn(F::Output) -> W) -> Box<dyn Comb>
+where
+    F::Output: 'static,
+{
+    Box::new(FutComb {
+        fut: Box::pin(f),
+        wrap,
+        dbg: Some(|f| format!("{f:?}")),
     })
 }
 fn stream_comb<S: Stream + 'static>(s: S) -> Box<dyn Comb>
@@ -270,13 +291,13 @@ impl Kind {
 pub fn build_join(kind: Kind, n: usize) -> Box<dyn Comb> {
     match kind {
         #[cfg(feature = "cfg-alloc")]
-        Kind::Vec => fut_comb((0..n).map(SFut).collect::<Vec<_>>().join(), PlainOut),
+        Kind::Vec => fut_comb_dbg((0..n).map(SFut).collect::<Vec<_>>().join(), PlainOut),
         #[cfg(not(feature = "cfg-alloc"))]
         Kind::Vec => unreachable!(),
         Kind::Arr => {
             macro_rules! m {
                 ($N:literal) => {
-                    fut_comb(std::array::from_fn::<_, $N, _>(SFut).join(), PlainOut)
+                    fut_comb_dbg(std::array::from_fn::<_, $N, _>(SFut).join(), PlainOut)
                 };
             }
             with_array_size!(n, m)
@@ -299,13 +320,13 @@ pub fn build_join(kind: Kind, n: usize) -> Box<dyn Comb> {
 pub fn build_try_join(kind: Kind, n: usize) -> Box<dyn Comb> {
     match kind {
         #[cfg(feature = "cfg-alloc")]
-        Kind::Vec => fut_comb((0..n).map(RFut).collect::<Vec<_>>().try_join(), TryOut),
+        Kind::Vec => fut_comb_dbg((0..n).map(RFut).collect::<Vec<_>>().try_join(), TryOut),
         #[cfg(not(feature = "cfg-alloc"))]
         Kind::Vec => unreachable!(),
         Kind::Arr => {
             macro_rules! m {
                 ($N:literal) => {
-                    fut_comb(std::array::from_fn::<_, $N, _>(RFut).try_join(), TryOut)
+                    fut_comb_dbg(std::array::from_fn::<_, $N, _>(RFut).try_join(), TryOut)
                 };
             }
             with_array_size!(n, m)
